@@ -202,6 +202,45 @@ def market_names(draw, n):
     return names[::-1] if draw(st.booleans()) else list(names)
 
 
+def via_templates(draw, cfg, name):
+    """move some settings of an event entry into a template it 'extends' (one case in two); in half of those the template itself
+    extends a root template that holds DIFFERENT values for the same keys -- the nearest definition counts."""
+    mode = draw(st.sampled_from(["none", "none", "one", "two"]))
+    entry = cfg[name]
+    keys = sorted(k for k in entry if k not in ("class", "extends"))
+    if mode == "none" or not keys:
+        return mode
+    moved = draw(st.lists(st.sampled_from(keys), min_size=1, max_size=len(keys), unique=True))
+    t1 = f"T1_{name}"
+    cfg[t1] = {k: entry.pop(k) for k in moved}
+    entry["extends"] = t1
+    if mode == "two":
+        def decoy(v):
+            if isinstance(v, bool):
+                return not v
+            if isinstance(v, int):
+                return v + 3
+            if isinstance(v, float):
+                return v * 2 + 0.01
+            return v
+        t2 = f"T2_{name}"
+        cfg[t2] = {k: decoy(v) for k, v in cfg[t1].items()}
+        cfg[t1]["extends"] = t2
+    return mode
+
+
+def resolved_config(cfg):
+    """the configuration with every 'extends' chain resolved by the reference resolver (what each entry means)"""
+    import copy
+
+    from .models import ref_json_extends
+    out = copy.deepcopy(cfg)
+    for k, v in cfg.items():
+        if isinstance(v, dict) and "extends" in v:
+            out[k] = ref_json_extends(cfg, k, v, ["numMarkets", "numAgents", "from", "to", "prefix"])
+    return out
+
+
 def jvalue(draw, const, lo, hi):
     """a parameter the documentation allows to be a constant or a distribution (JsonRandom): one of the documented forms."""
     form = draw(st.sampled_from(["plain", "plain", "const", "range", "uniform"]))
